@@ -861,6 +861,9 @@ func main() {
 		for i := 0; i < n; i++ {
 			big := i < nbig
 			h := randomHistory(rng, big)
+			for len(h.Wire) == 0 { // nothing captured: not a history
+				h = randomHistory(rng, big)
+			}
 			k := rng.Intn(len(fmtNames) * len(linkNames))
 			f, l := fmtNames[k%len(fmtNames)], linkNames[k/len(fmtNames)]
 			ws := seed*7000003 + int64(i)
